@@ -3,7 +3,8 @@
 
    Transcribed function by function from lib/hdb.c:
      qb_hdb_handle_create / _get / _put / _destroy / _refcount_get,
-     qb_hdb_iterator_reset / _next.
+     qb_hdb_iterator_reset / _next, qb_hdb_base_convert / _nocheck_convert
+     (qb_hdb_handle_get_always is qb_hdb_handle_get: the driver maps it to Get).
    Conventions (DESIGN.md section 3): a handle is the uint64_t value as a Z in [0, 2^64);
    `check' and `handle' are the int32_t halves exactly as the C code computes them;
    object instances are allocation-order ids (1, 2, ...; 0 = NULL); the destructor
@@ -28,6 +29,10 @@ Definition NOCHECK : Z := -1.                                 (* (int32_t) UINT3
 
 (* (((uint64_t) check) << 32) | handle   for 0 <= check < 2^31, 0 <= handle < 2^31 *)
 Definition mk_handle (check idx : Z) : Z := (check mod two32) * two32 + idx.
+
+(* qb_hdb_base_convert: handle & UINT32_MAX;  qb_hdb_nocheck_convert: ((uint64_t) UINT32_MAX) << 32 | handle *)
+Definition base_convert (h : Z) : Z := h mod two32.
+Definition nocheck_convert (i : Z) : Z := (two32 - 1) * two32 + i mod two32.
 
 Record slot := { s_state : Z; s_check : Z; s_ref : Z; s_inst : Z }.
 
